@@ -8,6 +8,7 @@ import (
 	"go/scanner"
 	"go/token"
 	"os"
+	"os/exec"
 	"path/filepath"
 	"regexp"
 	"sort"
@@ -678,6 +679,72 @@ func TestC01(t *testing.T) {
 		Classes:    func(c c1Fault) []string { return []string{fmt.Sprintf("limit-%d", c.Limit)} },
 		Budget:     ev.Budget{Quick: 6, Thorough: 60},
 	})
+	// a target package with a cgo file: go/packages hands out the rewritten copy from the build cache for it, the output still
+	// belongs into the package directory
+	if r.Shard == r.NSh-1 {
+		if _, err := exec.LookPath("gcc"); err == nil && os.Getenv("CGO_ENABLED") != "0" {
+			ev.Enumerate(r, "cgo-target", func(yield func(c1Cgo) bool) {
+				for _, c := range []c1Cgo{{CgoFileFirst: true, NDecls: 1}, {CgoFileFirst: false, NDecls: 3}} {
+					if !yield(c) {
+						return
+					}
+				}
+			}, oracleC01Cgo, func(c1Cgo) bool { return true }, func(c c1Cgo) []string { return []string{"cgo-target-package"} })
+		}
+	}
+}
+
+type c1Cgo struct {
+	CgoFileFirst bool `json:"cgofilefirst"` // the file importing "C" sorts before / behind the plain file
+	NDecls       int  `json:"ndecls"`
+}
+
+func oracleC01Cgo(c c1Cgo) error {
+	cgoName, plainName := "a_cg.go", "plain.go"
+	if !c.CgoFileFirst {
+		cgoName = "z_cg.go"
+	}
+	m := modspec.Mod{Path: "example.com/cgomod", Go: "1.21", Pkgs: []modspec.Pkg{{Dir: "cg", Name: "cg", Other: []modspec.File{
+		{Name: cgoName, Data: "// Package cg uses cgo.\npackage cg\n\n/*\nstatic int add(int a, int b) { return a + b; }\n*/\nimport \"C\"\n\n// InCgoFile is declared in the file that imports C.\ntype InCgoFile struct{ A int }\n\n// Sum adds through C.\nfunc Sum(a, b int) int { return int(C.add(C.int(a), C.int(b))) }\n"},
+		{Name: plainName, Data: "package cg\n\n// Plain is declared in an ordinary file.\ntype Plain struct{ B int }\n"},
+	}}}}
+	dir := tempModule(&m)
+	defer os.RemoveAll(dir)
+	text := ""
+	for d := 0; d < c.NDecls; d++ {
+		text += fmt.Sprintf("\nvar _$G_$T_%d = %d\n", d, d)
+	}
+	sc := &script.Script{Name: "g", Mode: "fixed", Default: script.Action{Render: []script.Piece{{Kind: "block", Text: text}}}}
+	res := script.Run(script.RunSpec{Dir: dir, Entrypoints: []string{"./cg"}, Globals: map[string][]string{"gengo:g": {""}}, Base: "zz_generated", Scripts: []*script.Script{sc}})
+	if res.LoadErr != "" {
+		panic("harness: cgo module does not load: " + res.LoadErr)
+	}
+	if res.Panic != "" {
+		return fmt.Errorf("Execute panics on a package with a cgo file: %s", res.Panic)
+	}
+	if res.Failed {
+		return fmt.Errorf("Execute fails on a package with a cgo file: %s", res.Err)
+	}
+	fn := filepath.Join(dir, "cg", "zz_generated.g.go")
+	src, err := os.ReadFile(fn)
+	if err != nil {
+		return fmt.Errorf("generator g rendered for the types of package cg (which has a cgo file), but <package directory>/zz_generated.g.go does not exist: %v", err)
+	}
+	pf, err := parser.ParseFile(token.NewFileSet(), fn, src, parser.ParseComments)
+	if err != nil {
+		return fmt.Errorf("%s does not parse: %v", fn, err)
+	}
+	if pf.Name.Name != "cg" {
+		return fmt.Errorf("%s declares package %s, want cg", fn, pf.Name.Name)
+	}
+	for _, ty := range []string{"InCgoFile", "Plain"} {
+		for d := 0; d < c.NDecls; d++ {
+			if name := fmt.Sprintf("_g_%s_%d", ty, d); !strings.Contains(string(src), name) {
+				return fmt.Errorf("%s lacks the rendered declaration %s:\n%s", fn, name, clip(string(src), 600))
+			}
+		}
+	}
+	return nil
 }
 
 // ---- write faults: Execute may fail, but it must not return nil over a file that is not what the generator rendered ----
